@@ -28,8 +28,8 @@ NA = {
 CLAIMED = {}
 
 
-def claim(pid, engine, technique, text, note, ref):
-    CLAIMED[pid] = (engine, technique, text, note, ref)
+def claim(pid, engine, technique, text, note, ref, level="exploration"):
+    CLAIMED[pid] = (engine, technique, text, note, ref, level)
 
 
 def load_claims():
@@ -41,7 +41,7 @@ def load_claims():
         name = os.path.basename(f)[:-3]
         mod = importlib.import_module(f"simcheck.props.{name}")
         m = mod.MANIFEST
-        claim(mod.ID, m["engine"], m["technique"], m["text"], m["note"], m["ref"])
+        claim(mod.ID, m["engine"], m["technique"], m["text"], m["note"], m["ref"], mod.LEVEL)
 
 
 PLANNED = {}
@@ -53,7 +53,7 @@ def main():
     checks = []
     for pid in props:
         if pid in CLAIMED:
-            engine, technique, text, note, ref = CLAIMED[pid]
+            engine, technique, text, note, ref, level = CLAIMED[pid]
             checks.append({
                 "property_id": pid,
                 "quick_cmd": f"./check {pid} --tier quick",
@@ -61,7 +61,7 @@ def main():
                 "evidence_file": f"evidence/{pid}.json",
                 "replay_cmd_template": f"./check {pid} --replay {{path}}",
                 "engine": engine,
-                "level_claimed": {"category": "exploration", "text": text, "design_ref": ref},
+                "level_claimed": {"category": level, "text": text, "design_ref": ref},
                 "level_note": note,
                 "technique": technique,
             })
